@@ -257,6 +257,15 @@ def run(check):
             mine = lambda defs: sorted(d for d in defs if any(w in d for w in own_words))
             if mine(ds) != mine(defs_multi):
                 problem = "multi-file mode defines %s, single-file mode %s" % (mine(defs_multi), mine(ds))
+            # helper definitions that single-file mode appends (Swift's CodableVoid) must exist somewhere in the folder too
+            if not problem and lang == "swift":
+                one = "public struct CodableVoid" in single
+                many = any("public struct CodableVoid" in t for t in outs.values())
+                used = any(re.search(r"\bCodableVoid\b", t) for fn, t in outs.items() if fn != "Codable.swift")
+                if one != many or (used and not many):
+                    problem = ("single-file mode %s `CodableVoid`, the folder %s it (files: %s)%s"
+                               % ("defines" if one else "does not define", "defines" if many else "does not define", sorted(outs),
+                                  "; a module refers to it" if used else ""))
         if problem:
             check.violation("%s -d: %s" % (lang, problem),
                             case={"lang": lang, "files": {f["rel"]: render_file(f["file"]) for f in files}},
